@@ -125,3 +125,45 @@ func directedUnify(cx *lib.Ctx) {
 		}
 	}
 }
+
+// directedSharedAttr: one attribute named by two specs that decode from the same body, with different
+// `Required` flags, in both orders, wrapped or not — and a body that lacks the attribute.  Whatever the order,
+// the required one makes the body invalid: an error must be reported.
+func directedSharedAttr(cx *lib.Ctx) {
+	res := cx.Res
+	opt := func() hcldec.Spec { return &hcldec.AttrSpec{Name: "a", Type: cty.String} }
+	req := func() hcldec.Spec { return &hcldec.AttrSpec{Name: "a", Type: cty.String, Required: true} }
+	def := func(p hcldec.Spec) hcldec.Spec {
+		return &hcldec.DefaultSpec{Primary: p, Default: &hcldec.LiteralSpec{Value: cty.StringVal("anonymous")}}
+	}
+	specs := map[string]hcldec.Spec{
+		"tuple(opt,req)":          hcldec.TupleSpec{opt(), req()},
+		"tuple(req,opt)":          hcldec.TupleSpec{req(), opt()},
+		"tuple(default(opt),req)": hcldec.TupleSpec{def(opt()), req()},
+		"tuple(req,default(opt))": hcldec.TupleSpec{req(), def(opt())},
+		"tuple(tuple(opt),req)":   hcldec.TupleSpec{hcldec.TupleSpec{opt()}, req()},
+		"object(x:opt,y:req)":     hcldec.ObjectSpec{"x": opt(), "y": req()},
+		"tuple(opt,opt,req)":      hcldec.TupleSpec{opt(), opt(), req()},
+	}
+	for name, spec := range specs {
+		for _, src := range []string{"", "b = 1\n"} {
+			input := name + " on body:\n" + src
+			f, diags := hclsyntax.ParseConfig([]byte(src), "", hcl.InitialPos)
+			if diags.HasErrors() {
+				continue
+			}
+			var ddiags hcl.Diagnostics
+			ok := decgen.GuardKey(cx, "directed-shared-attr", func(key string) string { return key + ":shared-attribute" }, input, func() {
+				_, ddiags = hcldec.Decode(f.Body, spec, nil)
+			})
+			res.Count("directed-shared-attr:cases")
+			res.Case("directed-shared-attr|"+input, true)
+			if !ok {
+				continue
+			}
+			if !decgen.HasDiag(ddiags, "Missing required argument") {
+				res.Fail(lib.Failure{Kind: "oracle", Key: "missing-error:required-attribute-also-named-optional", Desc: "a required attribute is absent, yet no \"Missing required argument\" error is reported (the attribute is also named by a spec that does not require it): " + decgen.DiagText(ddiags), Input: input})
+			}
+		}
+	}
+}
